@@ -2,6 +2,7 @@ package main
 
 import (
 	"fmt"
+	"strings"
 	"time"
 )
 
@@ -37,6 +38,43 @@ func genC03(out *caseWriter, seed uint64, n int, args []string) error {
 				}
 			}
 		}
+		unpriced := false
+		if len(o.commodities) < len(allComs) && r.chance(10) {
+			// a commodity without any price, booked in a transaction of several bookings in which it is NOT the last
+			// one, between income / expense accounts or on the journal's last day (no later revaluation asks for the
+			// price again): the report must fail (seeded change C03f-missing-price-error-overwritten kept only the
+			// error of a transaction's last valued booking)
+			x := allComs[len(o.commodities)]
+			var ie, al []string
+			for _, a := range journalAccounts(j) {
+				if isAL(a) {
+					al = append(al, a)
+				} else if !strings.HasPrefix(a, "Equity") {
+					ie = append(ie, a)
+				}
+			}
+			last := ""
+			for _, d := range j {
+				if d.Date > last {
+					last = d.Date
+				}
+			}
+			t := Dir{Kind: 'T', Date: last, Desc: pick(r, []string{"Odd lot", "Zz barter", "A gift"})}
+			if len(ie) >= 2 && r.chance(60) {
+				t.Date = dateStr(o.startDate.AddDate(0, 0, r.intn(o.days)))
+				t.Bookings = append(t.Bookings, Booking{ie[0], ie[1], randAmount(r, false), x})
+			} else if len(al) >= 2 {
+				t.Bookings = append(t.Bookings, Booking{al[0], al[1], randAmount(r, false), x})
+			}
+			if len(t.Bookings) > 0 && len(al) >= 1 && len(ie) >= 1 {
+				for k, nb := 0, 1+r.intn(2); k < nb; k++ {
+					t.Bookings = append(t.Bookings, Booking{pick(r, ie), pick(r, al), randAmount(r, false), pick(r, o.commodities)})
+				}
+				j = append(j, t)
+				unpriced = true
+			}
+		}
+		_ = unpriced
 		cfg := genBalCfg(r, j, o, true, false)
 		cfg.Diff = false
 		cfg.Show = nil
